@@ -24,6 +24,7 @@ import (
 
 	jobSource "github.com/mimiro-io/datahub/internal/jobs/source"
 	"github.com/mimiro-io/datahub/internal/server"
+	"github.com/mimiro-io/datahub/internal/verifhook"
 )
 
 const defaultBatchSize = 10000
@@ -149,6 +150,7 @@ func (pipeline *FullSyncPipeline) sync(job *job, ctx context.Context) (int, erro
 	}
 
 	pipeline.source.EndFullSync()
+	verifhook.Point("FullSyncPipeline:before-endFullSync")
 	err = pipeline.sink.endFullSync(ctx, runner)
 	if err != nil {
 		return entCnt, err
@@ -170,6 +172,7 @@ func (pipeline *FullSyncPipeline) sync(job *job, ctx context.Context) (int, erro
 	if pipeline.sink.GetConfig()["Type"] != "HttpDatasetSink" ||
 		(isDatasetSource && dss.LatestOnly) ||
 		pipeline.source.GetConfig()["Type"] == "MultiSource" {
+		verifhook.Point("FullSyncPipeline:before-token-store")
 		err = runner.store.StoreObject(server.JobDataIndex, job.id, syncJobState)
 		if err != nil {
 			return entCnt, err
@@ -301,6 +304,7 @@ func (pipeline *IncrementalPipeline) sync(job *job, ctx context.Context) (int, e
 					}
 				}
 
+				verifhook.Point("IncrementalPipeline:after-sink-before-token")
 				// store token if there is one
 				if continuationToken.GetToken() != "" {
 					syncJobState.ContinuationToken, err = continuationToken.Encode()
@@ -312,6 +316,7 @@ func (pipeline *IncrementalPipeline) sync(job *job, ctx context.Context) (int, e
 					if err != nil {
 						return err
 					}
+					verifhook.Point("IncrementalPipeline:after-token-store")
 				}
 
 				if incomingEntityCount == 0 || // if this was the last page (empty) of a tokenized source
